@@ -4,7 +4,7 @@ import re
 
 MODEL_VOS = ["theories/Base.vo", "theories/Mapping.vo", "theories/Spec.vo", "theories/Mapper.vo",
              "theories/CacheWriter.vo", "theories/CacheReader.vo", "theories/Stacktrace.vo", "theories/Java.vo",
-             "theories/Metadata.vo"]
+             "theories/Metadata.vo", "theories/Sink.vo", "theories/Uuid.vo"]
 
 TRUSTED_BASE = [
     "Coq 8.16.1 kernel (coqc), vm_compute for finite checks and witnesses; no native_compute",
@@ -61,10 +61,35 @@ def items_no_terminator(line):
     return bad
 
 
+def check_xver(case, il, ctx):
+    """C10: files of either release, read by either reader: WrongVersion or identical answers"""
+    probs = []
+    I = kv(il)
+    if il == "WRITE-FAILED":
+        return ["a writer failed on a representable mapping"]
+    for a, b, who in (("pp", "pc", "file written by the pinned release"), ("cc", "cp", "file written by the current tree")):
+        x, y = I.get(a), I.get(b)
+        other = y if a == "pp" else y
+        if other == "WrongVersion":
+            _kind(ctx, "xver:WrongVersion")
+            continue
+        if x != y:
+            probs.append(f"{who}: pinned reader {I.get('pp' if a == 'pp' else 'cp', '')[:140]!r} current reader "
+                         f"{I.get('pc' if a == 'pp' else 'cc', '')[:140]!r}")
+        if "PANIC" in (x or "") or "PANIC" in (y or "") or "ERR:" in (y or ""):
+            probs.append(f"{who}: reader failed: {x[:80]} / {y[:80]}")
+    ans = I.get("cc", "")
+    _nontrivial(ctx, case, ans not in ("~", "[]", "", "none"))
+    _kind(ctx, "xver:same-bytes" if I.get("samebytes") == "1" else "xver:bytes-differ")
+    return probs
+
+
 def check_case(prop, case, il, ml, ctx):
     """returns a list of problems (empty = the case agrees)"""
     op = case.split(" ", 1)[0]
     probs = []
+    if ctx.get("mode") == "run-xver":
+        return check_xver(case, il, ctx)
     I, M = kv(il), kv(ml)
     expected = [t[1:] for t in case.split(" ")[1:] if t.startswith("=")]
     mode = PROPS[prop].get("oracle", "spec")
@@ -138,6 +163,30 @@ def check_case(prop, case, il, ml, ctx):
                     probs.append("printing the typed result differs from the text API on the printed input")
             _nontrivial(ctx, case, I.get("m", "").split("/")[-1] != I.get("p"))
             _kind(ctx, "Y:parsed")
+    elif op == "Z":
+        if il != ml:
+            probs.append(f"Z: implementation {il[:160]!r} model {ml[:160]!r}")
+        # the property's own two implications on the implementation's answer
+        if I.get("r") == "ok" and I.get("full") != "1":
+            probs.append("write reported success but the sink did not receive the canonical bytes")
+        if I.get("pfx") != "1":
+            probs.append("the sink received bytes that are not a prefix of the canonical serialisation")
+        first = {}
+        for t in case.split(" ")[2:]:
+            if ":" in t:
+                first.setdefault(int(t.split(":")[0]), t.split(":")[1])
+        failed = [i for i, r in first.items() if r == "F"]
+        if I.get("r") == "ok" and failed:
+            calls = int(I.get("calls", "0"))
+            if any(i < calls for i in failed):
+                probs.append("a non-retryable sink failure was consumed but write reported success")
+        _nontrivial(ctx, case, I.get("r") != "ok" or "max=0" not in case)
+        _kind(ctx, "Z:" + I.get("r", "?"))
+    elif op == "U":
+        if il != ml:
+            probs.append(f"U: implementation {il!r} independent SHA-1 computation {ml!r}")
+        _nontrivial(ctx, case, True)
+        _kind(ctx, "U")
     elif op == "A":
         _eq(probs, "A/print", I.get("p", ""), M.get("p", ""))
         if I.get("rt") != "1":
@@ -150,6 +199,13 @@ def check_case(prop, case, il, ml, ctx):
         _kind(ctx, "A:depth" + str(case.count(" c ")))
     elif op == "W":
         _eq(probs, "cache bytes", I.get("w", ""), M.get("w", ""))
+        wb = hexbytes(I.get("w", "x")) if I.get("w", "").startswith("x") else b""
+        if len(wb) >= 24:
+            nc, nm, np_, sb = (int.from_bytes(wb[8 + 4 * k:12 + 4 * k], "little") for k in range(4))
+            al = lambda x: (x + 7) // 8 * 8
+            implied = al(al(al(24 + 28 * nc) + 36 * nm) + 36 * np_) + sb
+            if implied != len(wb):
+                probs.append(f"length {len(wb)} differs from the length {implied} implied by the header")
         if mode == "spec" and I.get("test") != "ok":
             probs.append(f"self test: {I.get('test')}")
         _nontrivial(ctx, case, len(I.get("w", "")) > 60)
@@ -306,8 +362,67 @@ PROPS = {
              "containing ': ', 'Caused by: ', frame-like text, <init>, non-ASCII, $) plus single frame / throwable lines; "
              "non-trivial = trace with a frame or a cause",
              "all clauses proved; wf_trace is the boolean domain (necessity of each condition shown by counterexamples)"),
+    "C10": P(["C10_layout_or_version_bump", "C10_other_version_rejected", "C10_written_version"],
+             "Theorems: the record layouts, sentinel defaults and magic read from the current source equal the pinned "
+             "release's unless the version constant differs (guard re-proved against the regenerated Extracted.v on "
+             "every run); any buffer with another version word is rejected with the version error. The harness links "
+             "the vendored pinned release: files written by each release are answered by both readers, and every "
+             "answer must be WrongVersion or identical.",
+             "representable grammar mappings and corpus files x {pinned 5.5.0, current tree} writers x both readers x "
+             "class / method / line / params / text-trace / signature queries over the file's universe; non-trivial = "
+             "query answered with a non-empty result. Typed remapping is excluded: the pinned release has defect F3 "
+             "(fixed), which changes typed answers independently of the file bytes",
+             "guard and version clauses proved; reader equality across releases is established by the cross-release run "
+             "(the pinned reader is not modelled separately)",
+             modes=["run-xver"], model=False,
+             trusted_extra=["pinned/proguard-5.5.0: vendored sources of the pinned snapshot f3fcb84 (package renamed)"]),
+    "C14": P(["C14_length_implied_by_header", "C14_function_of_bytes"],
+             "Partial. Theorems: the output length equals the length implied by the header counts; the model writer is a "
+             "function of the mapping bytes. The property's runtime content (no dependence on hash seeds, threads, "
+             "addresses) is sampled: every mapping is written twice per process, by 8 separately started processes and "
+             "from 8 concurrent threads, and every output must equal the model's bytes and its own header-implied length.",
+             "representable grammar mappings (every 25th with up to 120 classes) and corpus files, two writes each, in 8 "
+             "processes and 8 threads; non-trivial = file with at least one class; distinct by mapping",
+             "partial: determinism of the real process is sampled, not proved",
+             modes=["run", "run p2", "run p3", "run p4", "run p5", "run p6", "run p7", "run p8", "run-threads 8"]),
+    "C15": P(["C15_canonical", "C15_success_means_canonical", "C15_failure_reported", "C15_only_a_prefix",
+              "C15_retry_and_short_writes", "C15_model_total"],
+             "Theorems about std's write_all loop over any scripted sink and the writer's chunk sequence: success implies "
+             "the sink received exactly the canonical bytes; a consumed non-retryable failure implies an error with only a "
+             "prefix delivered; interrupted calls are retried and short writes completed. ProguardCache::write is run "
+             "against scripted sinks and compared (result kind, accepted bytes, number of calls) with the model; the "
+             "property's two implications are also evaluated on the implementation's answer directly.",
+             "representable mappings x sinks accepting at most k bytes per call (k = 0..16), short once / zero-length / "
+             "failing / interrupted at call i for every i, and random scripts; non-trivial = limited or scripted sink",
+             "all clauses proved"),
+    "C18": P(["C18_definition", "C18_namespace", "C18_version_and_variant", "C18_sixteen_bytes"],
+             "Partial. Theorems: the identifier is v5(v5(DNS, 'guardsquare.com'), bytes) with namespace "
+             "4f44f30f-24be-53d0-bab6-f47c7120ad6c, version nibble 5 and variant bits 10 for every input. "
+             "ProguardMapping::uuid is compared with this independent SHA-1 computation (FIPS 180-4 model in Coq, "
+             "validated by test vectors) on empty, corpus, LF/CRLF and random inputs.",
+             "empty file, corpus files and their CRLF variants, grammar mappings, random bytes with lengths around the "
+             "SHA-1 block and padding boundaries (thorough: up to 1 MiB); non-trivial = every case; distinct by bytes",
+             "partial: equality of the uuid/sha1_smol code with the model is sampled"),
+    "C19": P(["C19_has_line_info", "C19_summary", "C19_last_header", "C19_is_valid", "C19_window_is_50"],
+             "Theorems: has_line_info = exists a method record with line mapping anywhere in the complete stream; summary "
+             "counts = numbers of class / method records, compiler / version / min-api = value of the last header with "
+             "that key; is_valid = a class record followed by a member record within the first 50 items (the window is "
+             "re-read from the source on every run). The three methods are compared with the model.",
+             "position dependent files (first line-mapped method after thousands of unmapped ones, after error lines, in "
+             "the last line without newline; repeated / malformed headers; 48..51 leading noise lines), wild grammar "
+             "mappings, mutations, soups, corpus; non-trivial = has_line_info or is_valid true or a summary field set",
+             "all clauses proved"),
+    "C20": P(["C20_schedule_independent", "C20_any_prefix", "C20_no_interior_mutability"],
+             "Partial. Theorem: under every interleaving of threads querying one shared immutable value, each thread "
+             "receives exactly the answers it gets alone. The premises are checked: Send + Sync assertions for all public "
+             "handle, iterator and result types are compiled into the harness, the translator scans the sources for "
+             "interior mutability, and query batches are run from 2, 5 and 16 threads against one shared mapper and cache "
+             "and compared with the single-threaded answers and the model.",
+             "representable mappings x up to 400 queries of every kind split randomly over 2 / 5 / 16 threads with random "
+             "yields; non-trivial = non-empty answer",
+             "partial: auto traits are decided by rustc, the memory model and unsafe dependencies are outside the model",
+             modes=["run", "run-threads 2", "run-threads 5", "run-threads 16"]),
     "C02": {"theorems": [], "level_text": "", "level_note": "", "rule": ""},
     "C12": {"theorems": [], "level_text": "", "level_note": "", "rule": ""},
     "C13": {"theorems": [], "level_text": "", "level_note": "", "rule": "", "oracle": "model"},
-    "C19": {"theorems": [], "level_text": "", "level_note": "", "rule": ""},
 }
